@@ -980,3 +980,54 @@ func (s *Server) restore(cs *ConnState, db map[string]*Entry, argv [][]byte) Rep
 	db[key] = e
 	return OK()
 }
+
+// NewConnState returns a connection state for direct execution through Exec.
+func (s *Server) NewConnState() *ConnState {
+	s.mu.Lock()
+	defer s.mu.Unlock()
+	s.connSeq++
+	cs := &ConnState{ID: s.connSeq, Authed: true}
+	s.Conns = append(s.Conns, cs)
+	return cs
+}
+
+// Exec executes one command on a connection state without any socket (used to replay
+// recorded command streams, e.g. every prefix of what a target received).
+func (s *Server) Exec(cs *ConnState, argv [][]byte) Reply {
+	s.mu.Lock()
+	defer s.mu.Unlock()
+	return s.dispatch(cs, argv)
+}
+
+// ParseCommands splits a raw byte stream as received from a client into commands; the
+// second result is the number of bytes that belong to complete commands.
+func ParseCommands(raw []byte) (cmds [][][]byte, ends []int) {
+	br := bufio.NewReader(&sliceReader{b: raw})
+	pos := 0
+	for {
+		var got []byte
+		argv, err := readCommand(br, &got)
+		if err != nil {
+			return
+		}
+		pos += len(got)
+		if len(argv) > 0 {
+			cmds = append(cmds, argv)
+			ends = append(ends, pos)
+		}
+	}
+}
+
+type sliceReader struct {
+	b []byte
+	i int
+}
+
+func (r *sliceReader) Read(p []byte) (int, error) {
+	if r.i >= len(r.b) {
+		return 0, io.EOF
+	}
+	n := copy(p, r.b[r.i:])
+	r.i += n
+	return n, nil
+}
